@@ -56,3 +56,95 @@ Proof. induction l as [|a l IH]; cbn [flat_map existsb]; [reflexivity|]. now rew
 Lemma existsb_map' {A B} (f : A -> B) (p : B -> bool) l : existsb p (map f l) = existsb (fun a => p (f a)) l.
 Proof. induction l as [|a l IH]; cbn [map existsb]; [reflexivity|]. now rewrite IH. Qed.
 
+Lemma forallb_ext' {A} (f g : A -> bool) l : (forall a, f a = g a) -> forallb f l = forallb g l.
+Proof. intros H. induction l as [|a l IH]; cbn [forallb]; [reflexivity|]. now rewrite H, IH. Qed.
+
+Lemma existsb_ext' {A} (f g : A -> bool) l : (forall a, f a = g a) -> existsb f l = existsb g l.
+Proof. intros H. induction l as [|a l IH]; cbn [existsb]; [reflexivity|]. now rewrite H, IH. Qed.
+
+Section OneClause.
+  Variables (s : spec) (U : list string) (I : interp) (cl : clause) (required : bool).
+  Let sl := cl_slabel cl.
+  Let ol := cl_olabel cl.
+  Let S := cl_subj cl.
+  Let O := cl_obj cl.
+  Hypothesis Hne : sl <> ol.
+
+  Definition verb_lit_true (x y : string) : bool :=
+    xorb (xorb (cl_neg cl) required) (holds I (atom_text (verb_pred (cl_verb cl)) [x; y])).
+
+  Lemma one_clause_compiled :
+    constraints_ok I (flat_map (ground_rule U) (compile_sentence s (SCons required [] [cl] None))) =
+    forallb (fun x => forallb (fun y => negb (holds I (atom_text S [x]) && verb_lit_true x y && holds I (atom_text O [y]))) U) U.
+  Proof.
+    unfold constraints_ok. cbn [compile_sentence flat_map app clause_lits].
+    rewrite !app_nil_r.
+    fold sl ol S O.
+    assert (Hso : String.eqb sl ol = false) by now apply String.eqb_neq.
+    assert (Hos : String.eqb ol sl = false) by (apply String.eqb_neq; congruence).
+    set (va := {| na_pred := verb_pred (cl_verb cl); na_args := [TVar sl; TVar ol] |}).
+    assert (Hd : dedup_keep_last [BPos (atom1 S sl); if xorb (cl_neg cl) required then BNeg va else BPos va; BPos (atom1 O ol)] =
+                 [BPos (atom1 S sl); if xorb (cl_neg cl) required then BNeg va else BPos va; BPos (atom1 O ol)]).
+    { destruct (xorb (cl_neg cl) required); subst va; unfold atom1;
+        cbn [dedup_keep_last existsb lit_same_atom]; unfold natom_eqb; cbn [na_pred na_args terms_eqb term_eqb];
+        rewrite ?Hso, ?andb_false_r; cbn [orb andb]; rewrite ?andb_false_r; reflexivity. }
+    rewrite Hd. clear Hd.
+    cbn [ground_rule].
+    assert (Hv : vars_of_body [BPos (atom1 S sl); if xorb (cl_neg cl) required then BNeg va else BPos va; BPos (atom1 O ol)] = [sl; ol]).
+    { unfold vars_of_body, atom1. destruct (xorb (cl_neg cl) required); subst va;
+        cbn [fold_left vars_of_lit vars_of_atom na_args atom1 add_var mem_string];
+        unfold add_var; repeat (progress (cbn [mem_string app orb]; rewrite ?String.eqb_refl, ?Hos, ?Hso)); reflexivity. }
+    rewrite Hv. clear Hv.
+    cbn [all_substs].
+    rewrite forallb_flat_map, forallb_flat_map.
+    apply forallb_ext'. intros x.
+    rewrite forallb_map', forallb_flat_map.
+    apply forallb_ext'. intros y.
+    cbn [map forallb]. rewrite andb_true_r.
+    unfold verb_lit_true, atom_text.
+    destruct (xorb (cl_neg cl) required); subst va; unfold ground_body, atom1;
+      cbn [forallb flat_map app bounds_ok body_true b_pos b_neg andb]; unfold ground_atom; cbn [na_pred na_args map apply_term];
+      unfold sassoc; cbn [assoc]; rewrite ?String.eqb_refl, ?Hos; cbn [xorb];
+      unfold body_true; cbn [b_pos b_neg forallb];
+      repeat match goal with |- context [holds I ?a] => destruct (holds I a) end; reflexivity.
+  Qed.
+
+  Lemma one_clause_reading :
+    r_sentence s I (SCons required [] [cl] None) =
+    negb (existsb (fun x => existsb (fun y => verb_lit_true x y) (dom_of s O)) (dom_of s S)).
+  Proof.
+    unfold r_sentence. cbn [r_sentence_ok app forallb]. f_equal.
+    assert (Hso : String.eqb sl ol = false) by now apply String.eqb_neq.
+    assert (Hos : String.eqb ol sl = false) by (apply String.eqb_neq; congruence).
+    assert (Hl : clause_labels [cl] = [(sl, S); (ol, O)]).
+    { unfold clause_labels. cbn [fold_left existsb app fst]. fold sl ol S O. rewrite Hso. cbn [orb]. reflexivity. }
+    rewrite Hl. cbn [typed_bindings].
+    rewrite existsb_flat_map. apply existsb_ext'. intros x.
+    rewrite existsb_map', existsb_flat_map. apply existsb_ext'. intros y.
+    cbn [map existsb]. rewrite orb_false_r.
+    unfold where_holds, clause_holds, verb_lit_true, lookup, sassoc. fold sl ol. cbn [assoc].
+    rewrite ?String.eqb_refl, ?Hos. cbn [andb]. rewrite !andb_true_r. reflexivity.
+  Qed.
+
+  (* the interpretation holds exactly the declared values of the two concepts, all of them in the universe *)
+  Hypothesis HS : forall x, In x U -> holds I (atom_text S [x]) = mem_string x (dom_of s S).
+  Hypothesis HO : forall y, In y U -> holds I (atom_text O [y]) = mem_string y (dom_of s O).
+  Hypothesis HSU : incl (dom_of s S) U.
+  Hypothesis HOU : incl (dom_of s O) U.
+
+  Theorem one_clause_constraint_correct :
+    constraints_ok I (flat_map (ground_rule U) (compile_sentence s (SCons required [] [cl] None))) =
+    r_sentence s I (SCons required [] [cl] None).
+  Proof.
+    rewrite one_clause_compiled, one_clause_reading.
+    apply Bool.eq_true_iff_eq. rewrite negb_true_iff, forallb_forall. split.
+    - intros H. apply not_true_iff_false. intros E. apply existsb_exists in E as (x & Hx & E). apply existsb_exists in E as (y & Hy & E).
+      specialize (H x (HSU x Hx)). rewrite forallb_forall in H. specialize (H y (HOU y Hy)).
+      rewrite HS, HO in H by auto. rewrite E in H.
+      apply mem_string_In in Hx, Hy. rewrite Hx, Hy in H. discriminate H.
+    - intros H x Hx. apply forallb_forall. intros y Hy. apply negb_true_iff. apply not_true_iff_false. intros E.
+      apply andb_true_iff in E as (E & E3). apply andb_true_iff in E as (E1 & E2).
+      rewrite HS in E1 by assumption. rewrite HO in E3 by assumption. apply mem_string_In in E1, E3.
+      apply not_true_iff_false in H. apply H. apply existsb_exists. exists x. split; [assumption|]. apply existsb_exists. exists y. now split.
+  Qed.
+End OneClause.
